@@ -2,4 +2,5 @@ CONSTANTS MaxN = 6  MaxK = 3
 SPECIFICATION Spec
 INVARIANT TypeOK
 INVARIANT ModelSatisfiesProperty
+INVARIANT DrawsEqualClassSize
 CHECK_DEADLOCK FALSE
